@@ -931,3 +931,17 @@ Lemma paths_example :
   (* a git dir outside <common>/worktrees falls back to its leaf name and may collide *)
   ai_dir c [[120]; [119; 49]] = ai_dir c (c ++ [s_worktrees; [119; 49]]).
 Proof. vm_compute. auto. Qed.
+
+(* a checkpoint bound to base 7 that runs entirely AFTER the commit 7 -> 101 of the same worktree:
+   no window overlaps, yet the checkpoint lands in the working log of the OLD base, which the commit
+   has already consumed (and retires); neither the log nor INITIAL of the new base 101 knows it *)
+Definition sched_commit_then_ckpt : list nat := (repeat 0 10 ++ repeat 1 4)%nat.
+
+Lemma stale_base :
+  let progs := wit_commit_ckpt_progs in
+  let sched := sched_commit_then_ckpt in
+  let final := run progs sched empty_store in
+  length (trace_of progs sched) = 14%nat /\ ~ Known_C11 progs sched /\
+  cp_ids (final (OCp 0 7)) = [2] /\ cp_ids (final (OCp 0 101)) = [] /\
+  as_init (final (OInit 0 101)) = [] /\ as_notes (final ONotes) = [(101, 11)].
+Proof. vm_compute. intuition discriminate. Qed.
